@@ -443,7 +443,7 @@ pub fn run(ctx: &Ctx, st: &mut Stats) {
         }
     }
     // seeded random operands
-    let n = ctx.tier.pick(2_000, 3_000_000, 60_000_000);
+    let n = ctx.tier.pick(2_000, 3_000_000, ctx.big(60_000_000, 500_000_000));
     ctx.par(st, "random/all-linear-ops", false, 0, n, |st, _, rng| {
         let k = *rng.pick(K::ALL);
         let rd = |r: &mut Rng| r.range_i64(MIN_DAY as i64, MAX_DAY as i64);
